@@ -217,7 +217,35 @@ def busy_table(chk: Check, repo: Repo) -> None:
     chk.ob("busy-frames-reach-flow-control", hf.site(), ok, "RoutingBusy frames are handed to the flow control", key="busy-dispatch")
 
 
+def throttle_is_atomic(chk: Check, repo: Repo) -> None:
+    """The spacing is a check-then-act on shared state (read the last transmission time, sleep, wait for the ready flag,
+    transmit, store the new time) with awaits in between: senders that arrive together (the telegram queue is serial,
+    but management frames are sent from background tasks) would all measure from the same last transmission and send
+    back to back.  Every statement of throttle() that awaits, yields to the sender or touches the last-transmission
+    time is inside one `async with <lock>` whose lock is an asyncio.Lock created once in __init__."""
+    fc = repo.cls(M, "_RoutingFlowControl")
+    f = fc.methods["throttle"]
+    chk.unit(f)
+    cfg = CFG(f.node)
+    locks = {ast.unparse(n.targets[0]) for n in walk_local(fc.methods["__init__"].node) if isinstance(n, ast.Assign) and len(n.targets) == 1 and isinstance(n.value, ast.Call) and call_name(n.value) == "asyncio.Lock"}
+    critical = []
+    for n in cfg.nodes:
+        if n.ast is None or n.kind not in ("stmt", "test"):
+            continue
+        touches = any(isinstance(x, ast.Attribute) and x.attr == "_last_sent_routing_indication_time" for x in ast.walk(n.ast))
+        suspends = any(isinstance(x, (ast.Await, ast.Yield)) for x in ast.walk(n.ast))
+        if touches or suspends:
+            held = {ast.unparse(i.context_expr) for w in n.withs if isinstance(w, ast.AsyncWith) for i in w.items}
+            critical.append((n, held & locks))
+    chk.count("throttle statements in the spacing protocol", len(critical))
+    chk.floor("throttle statements in the spacing protocol", len(critical), 4)
+    common = set.intersection(*(h for _, h in critical)) if critical else set()
+    bad = [ast.unparse(n.ast)[:60] for n, h in critical if not h]
+    chk.ob("spacing-check-and-send-are-one-critical-section", f.site(), bool(common), f"throttle(): {len(critical)} statements read/await/yield/store under lock {sorted(common) or 'NONE'}" + (f"; outside any lock: {bad} — concurrent senders measure from the same last transmission and transmit together" if not common else ""), key="throttle|atomic")
+
+
 def run(chk: Check, repo: Repo) -> None:
+    throttle_is_atomic(chk, repo)
     send_cemi(chk, repo)
     throttle(chk, repo)
     ready_flag(chk, repo)
